@@ -200,10 +200,18 @@ def main(run_fn, pid):
     except _tlc.TLCError as e:
         print("MACHINERY-FAILURE property=%s: %s" % (pid, e), file=sys.stderr)
         rc = 2
-    except Exception:
-        # an unexpected exception in the harness: report what was found so far; a crash is never a pass
+    except Exception as e:
+        # an unexpected exception: report what was found so far; a crash is never a pass. When the exception was raised inside
+        # the library under test (on the admissible inputs the check feeds it - on the unchanged tree no check raises), it is a
+        # finding about the library, not a failure of the machinery
         import traceback
         traceback.print_exc()
+        repo = os.path.realpath(os.environ.get("PYMOTO_VERIF_REPO", "/repo"))
+        frames = traceback.extract_tb(e.__traceback__)
+        if frames and os.path.realpath(frames[-1].filename).startswith(repo + os.sep) and not isinstance(e, (MemoryError, KeyboardInterrupt)):
+            where = "%s:%d" % (os.path.relpath(os.path.realpath(frames[-1].filename), repo), frames[-1].lineno)
+            chk.violation("%s/raise/uncaught" % pid, "the library raised %s: %s (at %s) on an input of this check" % (type(e).__name__, str(e)[:200], where),
+                          {"exception": type(e).__name__, "where": where})
         rc = chk.finish() if chk.violations else 2
         if rc != 1:
             print("MACHINERY-FAILURE property=%s: unexpected exception in the harness" % pid, file=sys.stderr)
